@@ -176,7 +176,16 @@ package fsm
 
 // the committee handed to NewValidatorSet is the first `limit` entries of the sorted, filtered list
 // (all of them when the cap is 0), each with voting power equal to its stake
+// loading the current validator list reads the store and fills the FSM's validator caches; sorting permutes the
+// slice it is given (ASSUMED frames: neither touches parameter objects)
+//@ func (*StateMachine).getCurrentValidators
+//@   trusted
+//@   modifies cache.*, validatorSharedCache.*, map(uint64;[]*Validator), elems(uint64), elems(*Validator), ghost(mutexHeld)
+//@ func slices.SortFunc[[]*fsm.Validator, *fsm.Validator]
+//@   trusted
+//@   modifies elems(*fsm.Validator)
 //@ func (*StateMachine).getValidatorSet
+//@   callsite NewValidatorSet requires[capsource] maxPerCommittee == (delegate ? p.MaximumDelegatesPerCommittee : p.MaxCommitteeSize)
 //@   callsite NewValidatorSet requires[cap] len(members) == (maxPerCommittee > 0 && maxPerCommittee < len(filtered) ? maxPerCommittee : len(filtered))
 //@   callsite NewValidatorSet requires[power] forall k int :: 0 <= k && k < len(members) ==> members[k].VotingPower == filtered[k].StakedAmount && members[k].PublicKey == filtered[k].PublicKey
 //@   callsite NewValidatorSet requires[wiring] arg0.ValidatorSet == members && (len(arg1) == 1 && arg1[0] == delegate)
@@ -640,6 +649,12 @@ package fsm
 //@   callsite AddSlash requires[cap] slashTotal < p.MaxSlashPerCommittee && slashTotal + callee.percent <= p.MaxSlashPerCommittee && callee.percent == percent
 //@   callsite AddSlash requires[same] callee.chainId == chainId && bytes(callee.address) == bytes(validator.Address) && slashTotal == slashPct(s.slashTracker)[bytes(validator.Address)][chainId]
 //@   callsite SubFromTotalSupply requires[burn] stakeAfterSlash <= validator.StakedAmount && callee.amount == validator.StakedAmount - stakeAfterSlash
+// by the time tokens are burned, a committee-scoped slash is already charged to the committee's budget for this block
+//@   callsite SubFromTotalSupply requires[counted] committeeScoped && percent > 0 ==> slashPct(s.slashTracker)[bytes(validator.Address)][chainId] == wrap64(slashTotal + percent)
+// the record handed on as the OLD snapshot (for subtracting its stake from its committees' tallies) is the validator as
+// loaded: committees and stake not yet rewritten
+//@   callsite UpdateCommittees requires[snapshot] callee.oldValidator == validator && validator.Committees == old(validator.Committees) && validator.StakedAmount == old(validator.StakedAmount)
+//@   callsite DeleteValidator requires[snapshot] callee.validator == validator && validator.Committees == old(validator.Committees) && validator.StakedAmount == old(validator.StakedAmount)
 //@   callsite SubFromTotalSupply requires[bounded] percent < 100 ==> 100 * stakeAfterSlash + 100 > validator.StakedAmount * (100 - percent)
 // a slash burns: what leaves the validator's stake leaves the recorded total too, whether the validator
 // survives the slash or is removed by it; no account or pool is touched
